@@ -161,25 +161,41 @@ class TxnType(DataflowTransactionContext):  # pylint: disable=too-few-public-met
 
             if is_value_matches_key(key, arg1, TypeEnum) and value_3 is not None:
                 compared_type = transaction_type_to_tealer_type(value_3)
-                true_values, false_values = set([compared_type]), set(
-                    TYPEENUM_TRANSACTION_TYPES
-                ) - set([compared_type])
+                if compared_type is None:
+                    # not a transaction type: the comparison is never true
+                    true_values, false_values = set(), set(TYPEENUM_TRANSACTION_TYPES)
+                else:
+                    true_values, false_values = set([compared_type]), set(
+                        TYPEENUM_TRANSACTION_TYPES
+                    ) - set([compared_type])
             elif is_value_matches_key(key, arg2, TypeEnum) and value_2 is not None:
                 compared_type = transaction_type_to_tealer_type(value_2)
-                true_values, false_values = set([compared_type]), set(
-                    TYPEENUM_TRANSACTION_TYPES
-                ) - set([compared_type])
+                if compared_type is None:
+                    # not a transaction type: the comparison is never true
+                    true_values, false_values = set(), set(TYPEENUM_TRANSACTION_TYPES)
+                else:
+                    true_values, false_values = set([compared_type]), set(
+                        TYPEENUM_TRANSACTION_TYPES
+                    ) - set([compared_type])
 
             if is_value_matches_key(key, arg1, OnCompletion) and value_3 is not None:
                 compared_on_completion = oncompletion_to_tealer_type(value_3)
-                true_values, false_values = set([compared_on_completion]), set(
-                    APPLICATION_TRANSACTION_TYPES
-                ) - set([compared_on_completion])
+                if compared_on_completion is None:
+                    # not an OnCompletion value: the comparison is never true
+                    true_values, false_values = set(), set(APPLICATION_TRANSACTION_TYPES)
+                else:
+                    true_values, false_values = set([compared_on_completion]), set(
+                        APPLICATION_TRANSACTION_TYPES
+                    ) - set([compared_on_completion])
             elif is_value_matches_key(key, arg2, OnCompletion) and value_2 is not None:
                 compared_on_completion = oncompletion_to_tealer_type(value_2)
-                true_values, false_values = set([compared_on_completion]), set(
-                    APPLICATION_TRANSACTION_TYPES
-                ) - set([compared_on_completion])
+                if compared_on_completion is None:
+                    # not an OnCompletion value: the comparison is never true
+                    true_values, false_values = set(), set(APPLICATION_TRANSACTION_TYPES)
+                else:
+                    true_values, false_values = set([compared_on_completion]), set(
+                        APPLICATION_TRANSACTION_TYPES
+                    ) - set([compared_on_completion])
 
             if true_values is not None and false_values is not None:
                 if isinstance(ins1, Eq):
